@@ -132,6 +132,8 @@ class ConvexSpheropolyhedron(Shape3D):
 
     @volume.setter
     def volume(self, value):
+        if not value > 0:
+            raise ValueError("Volume must be greater than zero.")
         scale = (value / self.volume) ** (1 / 3)
         self._rescale(scale)
 
